@@ -212,7 +212,7 @@ theorem step_read (s s' : State) (t c : Nat) (e : Ev) (h : stepCaller s t c e = 
        · simp [State.setC, State.release]
        · simp only [setC_same]; first | exact failTo_pc _ | (simp; done))
     | (refine ⟨?_, Or.inl ⟨?_, ?_, ?_, ?_⟩⟩ <;> (simp [State.setC, *]; done))
-    | (subst_vars; exact ⟨by simp [State.setC], Or.inr (Or.inl ⟨by simp, _, _, _, _, _, rfl, ‹_›, ‹_›, by simp⟩)⟩)
+    | (have hd := (‹_ = _ ∧ mayRetry _ _ = true›).1; subst hd; exact ⟨by simp [State.setC], Or.inr (Or.inl ⟨by simp, _, _, _, _, _, rfl, ‹_›, ‹_›, by simp⟩)⟩)
     | skip)
 
 theorem nextReq_pc (k : Caller) : (nextReq k).pc ≠ .read := by unfold nextReq; split <;> (try split) <;> simp
